@@ -64,5 +64,10 @@ LD(m, d) == [A0 EXCEPT !.op = "Load", !.m = m, !.k = d, !.name = d]
 \* F5: a model built by loading: pb = packages a (no ELEMENTS) and b
 \*  the root of model 1 is node 3 afterwards (1 = the replaced empty root); 4 AR-PACKAGES, 5 a, 6 SN, 7 b, 8 SN
 F5 == <<LD(1, "pb")>>
+\* F6: mixed content.  /a {DESC {L-2 [L=EN] { "txt", TT "t", XREF-TARGET x }}}, and a second L-2-less package b
+\*  3 AR-PACKAGES, 4 a, 5 SN, 6 DESC, 7 L-2, 8 TT, 9 XREF-TARGET x, 10 SN, 11 b, 12 SN
+F6 == <<CF(1, "f1", "V50"), CF(2, "g1", "V50"),
+        CS(1, "AR-PACKAGES"), CN(3, "AR-PACKAGE", "a"), CS(4, "DESC"), CS(6, "L-2"), SA(7, "L", EVal("EN")),
+        ST(7, SVal("txt")), CS(7, "TT"), ST(8, SVal("t")), CN(7, "XREF-TARGET", "x"), CN(3, "AR-PACKAGE", "b")>>
 AttrValuesDef == {<<"UUID", SVal("u1")>>, <<"DEST", EVal("SYSTEM-SIGNAL")>>, <<"DEST", EVal("I-SIGNAL")>>, <<"NAME-PATTERN", SVal("x")>>}
 =============================================================================
